@@ -468,6 +468,11 @@ def do_edit(w, op):
         # S names a block nothing pointed at (the head of this graph): legal,
         # but afterwards the graph has no unique head to start a walk from
         w.path_ok = False
+    if not S and op["where"]:
+        # appending a successor-less block inside a region's graph: the region's
+        # recorded exiting block is no longer where execution ends (the edit
+        # primitives do not maintain region metadata and C14 does not say they do)
+        w.path_ok = False
     if not any(new in b._jump_targets for b in G.graph.values()):
         # the inserted block is unreachable (no predecessor had an arc into S):
         # legal, but the hierarchy then has two heads and cannot be walked
